@@ -329,7 +329,13 @@ func runEsc(c EscCase) ev.Verdict {
 
 	if err = d.Open(); err != nil {
 		if !c.InOnOpen || (c.WriteFailAfter < 0 && faultKind == "" && c.Behaviour == "asks") {
-			return ev.Fail("Open: %v", err)
+			// (whether this session opens is other properties' business: nothing to look for in
+			// the logs of a dialogue that never took place -- what was logged so far is still searched)
+			if l := leak(c.Secret, col.sinks()); l != "" {
+				return ev.Fail("the secret leaked into %s (Open failed: %v)", l, err)
+			}
+
+			return ev.Verdict{OK: true, Infeasible: true, Classes: []string{"session-did-not-open"}, Note: err.Error()}
 		}
 	} else {
 		defer func() { _ = d.Close() }()
@@ -494,7 +500,13 @@ default:
 		}
 
 		if err = d.Open(); err != nil && c.WriteFailAfter < 0 {
-			return ev.Fail("Open: %v", err)
+			// (whether this session opens is other properties' business: nothing to look for in
+			// the logs of a dialogue that never took place -- what was logged so far is still searched)
+			if l := leak(c.Secret, col.sinks()); l != "" {
+				return ev.Fail("the secret leaked into %s (Open failed: %v)", l, err)
+			}
+
+			return ev.Verdict{OK: true, Infeasible: true, Classes: []string{"session-did-not-open"}, Note: err.Error()}
 		}
 
 		time.Sleep(5 * time.Millisecond)
@@ -507,7 +519,13 @@ default:
 		}
 
 		if err = d.Open(); err != nil && c.WriteFailAfter < 0 {
-			return ev.Fail("Open: %v", err)
+			// (whether this session opens is other properties' business: nothing to look for in
+			// the logs of a dialogue that never took place -- what was logged so far is still searched)
+			if l := leak(c.Secret, col.sinks()); l != "" {
+				return ev.Fail("the secret leaked into %s (Open failed: %v)", l, err)
+			}
+
+			return ev.Verdict{OK: true, Infeasible: true, Classes: []string{"session-did-not-open"}, Note: err.Error()}
 		}
 
 		time.Sleep(5 * time.Millisecond)
